@@ -129,6 +129,10 @@ def _job(args):
                     ("include", dict(exclude_external_libraries=False), True, ()),
                     ("include+glob", dict(exclude_external_libraries=False, external_exclusions=glob), True, rx),
                     ("include+regex", dict(exclude_external_libraries=False, regex_external_exclusions=user_rx), True, user_rx),
+                    # external patterns combined with the OTHER kind of file exclusion option (glob external patterns while the file
+                    # exclusions are given as regexes, and the reverse)
+                    ("include+glob, file exclusions as regex", dict(exclude_external_libraries=False, external_exclusions=glob, exclusions=(), regex_exclusions=("zzzzNEVERzzzz",)), True, rx),
+                    ("include+regex, file exclusions as glob", dict(exclude_external_libraries=False, regex_external_exclusions=user_rx, exclusions=("*zzzzNEVERzzzz*",)), True, user_rx),
                 ]
                 internal_views = []
                 enc = rules.Enc()
@@ -168,7 +172,7 @@ def _job(args):
                         out["disagreements"].append((dict(case, impl_modules=mods, impl_edges=edges, model=str(d)[:500]), f"model scan and real scan differ ({cname})"))
                 if not out["pairs"] and cases:
                     out["pairs"].append((cases[-1], res[-1]))
-                if len(internal_views) == 4 and internal_views[1][1:] and any(m not in documented_scan(root, dirs, files, mp, False, ())[0] for m in scan.real_scan(base, root, mp, exclude_external_libraries=False)[1] or []):
+                if len(internal_views) == len(configs) and internal_views[1][1:] and any(m not in documented_scan(root, dirs, files, mp, False, ())[0] for m in scan.real_scan(base, root, mp, exclude_external_libraries=False)[1] or []):
                     out["nontrivial"] += 1
             if not out["samples"]:
                 out["samples"].append(dict(dirs=[scan.dotted(d) for d in dirs], module_paths=[scan.dotted(m) for m in mps]))
